@@ -66,6 +66,18 @@ Section Run.
           end
         else if is (U"serialize_and_sign") then serialize_and_sign ed_sign a b
         else if is (U"sign_signable") then sign_signable ed_pub ed_sign a b
+        else if is (U"sign_sequence") then
+          match b with
+          | VList seeds =>
+              e0 <- wrap_as_signable a ;;
+              (fix go (l : list pv) (e : pv) : res pv :=
+                 match l with
+                 | [] => Ok e
+                 | VBytes sd :: r => e' <- sign_signable ed_pub ed_sign e (VPriv sd) ;; go r e'
+                 | _ => Unmodelled
+                 end) seeds e0
+          | _ => Unmodelled
+          end
         else if is (U"sign_all_value") then sign_all_value ed_pub ed_sign a b
         else if is (U"pub_of_seed") then match a with VBytes sd => Ok (VBytes (ed_pub sd)) | _ => Unmodelled end
         else Unmodelled
